@@ -144,6 +144,29 @@ func solveOne(o *Obl, file string, timeout int, tier string) {
 		}
 	}
 	o.Agree = agree
+	if o.Result != want && o.Result != "sat" {
+		// No verdict: look for a candidate counterexample with the quantified assumptions dropped.
+		// Such a model is only a candidate; it is trusted only if the replay reproduces it on the real code.
+		weak := file + ".weak.smt2"
+		os.WriteFile(weak, []byte(stripQuantified(o.script(true))), 0o644)
+		rs, ou, se := runSolver(solvers[0], weak, 5)
+		o.Secs += se
+		if rs == "sat" {
+			o.Model = ou
+		}
+	}
+}
+
+// stripQuantified drops every assertion that contains a quantifier.
+func stripQuantified(script string) string {
+	var b strings.Builder
+	for _, l := range strings.Split(script, "\n") {
+		if strings.HasPrefix(l, "(assert ") && (strings.Contains(l, "(forall ") || strings.Contains(l, "(exists ")) && !strings.HasPrefix(l, "(assert (not ") {
+			continue
+		}
+		b.WriteString(l + "\n")
+	}
+	return b.String()
 }
 
 func (o *Obl) ok() bool {
